@@ -4,7 +4,7 @@
 EXTENDS GlobLookup, TraceLib
 CONSTANT KnownDeviations
 VARIABLES l,
-          memo    \* ghost for KF-C10-3: what the code has memoised, as a set of <<key, answer>>
+          memo    \* ghost for KF-C10-3: what the code has memoised, a function key -> answer
 tvars == <<vars, l, memo>>
 Is(name) == l <= NEv /\ TLog[l].ev = name
 E == TLog[l]
@@ -18,9 +18,9 @@ RECURSIVE AnyMatch(_, _, _, _)
 AnyMatch(n, ps, i, mm) ==
     IF i > Len(ps) THEN [hit |-> FALSE, memo |-> mm]
     ELSE LET k  == Key(n, ps[i])
-             kn == \E x \in mm : x[1] = k
-             v  == IF kn THEN (CHOOSE x \in mm : x[1] = k)[2] ELSE MatchGlob(n, ps[i])
-             m2 == IF kn THEN mm ELSE mm \cup {<<k, v>>}
+             kn == k \in DOMAIN mm
+             v  == IF kn THEN mm[k] ELSE MatchGlob(n, ps[i])
+             m2 == IF kn THEN mm ELSE (k :> v) @@ mm
          IN  IF v THEN [hit |-> TRUE, memo |-> m2] ELSE AnyMatch(n, ps, i + 1, m2)
 MemoPasses(x, mm) ==
     LET incAll == x.inc = <<>> \/ \E i \in 1..Len(x.inc) : x.inc[i] = <<"*">>
@@ -29,7 +29,7 @@ MemoPasses(x, mm) ==
         ELSE LET r2 == AnyMatch(x.n, x.exc, 1, r1.memo) IN [res |-> ~r2.hit, memo |-> r2.memo]
 
 TReset == /\ Is("Reset") /\ q' = [n |-> <<>>, inc |-> <<>>, exc |-> <<>>] /\ res' = TRUE /\ asked' = {}
-          /\ act' = "Init" /\ memo' = {} /\ l' = l + 1 /\ UNCHANGED scn
+          /\ act' = "Init" /\ memo' = <<>> /\ l' = l + 1 /\ UNCHANGED scn
 TLookup == /\ Is("Lookup")
            /\ act' = "Lookup" /\ q' = Q /\ res' = Answer(Q) /\ res' = E.res
            /\ asked' = asked \cup {<<Q, E.res>>}
@@ -49,7 +49,7 @@ KF_C10_3 == /\ "KF-C10-3" \in KnownDeviations
             /\ l' = l + 1 /\ UNCHANGED scn
             /\ UseDeviation("KF-C10-3")
 
-TraceInit == Init /\ l = 1 /\ memo = {}
+TraceInit == Init /\ l = 1 /\ memo = <<>>
 TraceNext == TReset \/ TLookup \/ KF_C10_3
 TraceSpec == TraceInit /\ [][TraceNext]_tvars
 HW == HWMark(l)
